@@ -1,3 +1,5 @@
 #![allow(unused)]
 #[cfg(kani)]
 mod positions;
+#[cfg(kani)]
+mod tokens;
